@@ -272,6 +272,56 @@ def final_members(ifdef):
     return d
 
 
+def share_members(rng, case):
+    """one Method / Signal / Property OBJECT added to two or more DBusInterface instances of the case (cached
+    definitions, the object's interfaces, other objects' interfaces).  In build order the first add counts the
+    object (or it was created with its counts set: 'preset'); every later add meets an already counted object.
+    The later adds often come after that interface's XML was read once."""
+    targets = [d for d in case['known']] + [d for p, ifs in case['objs'] for d in ifs]
+    if len(targets) < 2:
+        # a second definition to share with: an interface of another exported object
+        extra = gen_ifdef(rng, gen_iface_name(rng))
+        extra.pop('ctor', None)
+        case['objs'].append(['/sh/ared', [extra]])
+        targets.append(extra)
+    if len(targets) < 2:
+        return
+    for key in range(rng.choice([1, 1, 2, 3])):
+        kind = rng.choice('mmssp')
+        name = gen_member_name(rng)
+        if kind == 'm':
+            ti, to = gen_types(rng), gen_types(rng)
+            op = ['m', name, ''.join(ti), ''.join(to), len(ti), len(to)]
+        elif kind == 's':
+            t = gen_types(rng)
+            op = ['s', name, ''.join(t), len(t)]
+        else:
+            op = ['p', name, gen_type(rng, rng.choice([0, 1, 2])), rng.choice([0, 1]), rng.choice([0, 1]), rng.choice('tfi')]
+        mark = {'shared': key}
+        if kind != 'p' and rng.random() < 0.2:
+            mark['preset'] = True
+        chosen = [d for d in targets if rng.random() < 0.6]
+        if len(chosen) < 2:
+            chosen = rng.sample(targets, 2)
+        for d in targets:          # keep build order
+            if not any(d is c for c in chosen):
+                continue
+            d.pop('ctor', None) if rng.random() < 0.7 else None
+            new = list(op) + [dict(mark)]
+            r = rng.random()
+            if r < 0.55:
+                # after the XML of this interface was generated once
+                d['ops'] += [['x'], new] + ([['x']] if rng.random() < 0.3 else [])
+            elif r < 0.75:
+                d['ops'].append(new)
+            else:
+                d['ops'].insert(rng.randint(0, len(d['ops'])), new)
+            if rng.random() < 0.1:
+                # ... and taken out again after another read
+                d['ops'] += [['x'], ['d' + kind, name]]
+    case['shares'] = True
+
+
 def gen_doc(rng, malformed=False):
     nif = rng.choice([0, 1, 1, 1, 2, 2, 3, 4])
     names = []
@@ -368,6 +418,8 @@ def gen_doc(rng, malformed=False):
                             rng.choice([0, 0, 1])])
     case = {'kind': 'doc', 'replace': rng.choice([0, 1]), 'path': path, 'known': known, 'objs': objs,
             'objkind': objkind, 'queries': queries, 'dup': dup, 'malformed': bool(malformed)}
+    if not malformed and not any(d.get('same_object') for d in known) and rng.random() < 0.3:
+        share_members(rng, case)
     if known and not malformed and not case['replace'] and rng.random() < 0.35:
         # three-step history: known locally; a malformed / truncated document naming known interfaces is parsed
         # (default mode) and raises; then the well-formed document is parsed without replacement
@@ -389,11 +441,28 @@ def tok(s):
     return '=' + enc(s)
 
 
-def enc_op(op):
+def share_mark(op):
+    """{'shared': k[, 'preset': True]} when the op adds a member OBJECT that other interfaces add too"""
+    return op[-1] if isinstance(op[-1], dict) else None
+
+
+def enc_op(op, used=None):
+    """`used`: keys of shared member objects that an earlier op (in build order) already added - such an object
+    has been counted (nargs set) and is added as it is"""
     k = op[0]
+    mark = share_mark(op)
+    counted = False
+    if mark is not None and k in ('m', 's'):
+        counted = bool(mark.get('preset')) or (used is not None and mark['shared'] in used)
+        if used is not None:
+            used.add(mark['shared'])
     if k == 'm':
+        if counted:
+            return 'M %s %s %s %d %d' % (tok(op[1]), tok(op[2]), tok(op[3]), op[4], op[5])
         return 'm %s %s %s' % (tok(op[1]), tok(op[2]), tok(op[3]))
     if k == 's':
+        if counted:
+            return 'S %s %s %d' % (tok(op[1]), tok(op[2]), op[3])
         return 's %s %s' % (tok(op[1]), tok(op[2]))
     if k == 'p':
         return 'p %s %s %d %d %s' % (tok(op[1]), tok(op[2]), op[3], op[4], op[5])
@@ -402,8 +471,8 @@ def enc_op(op):
     return 'x'
 
 
-def enc_ifdef(d):
-    return ' '.join([tok(d['name']), str(len(d['ops']))] + [enc_op(o) for o in d['ops']])
+def enc_ifdef(d, used=None):
+    return ' '.join([tok(d['name']), str(len(d['ops']))] + [enc_op(o, used) for o in d['ops']])
 
 
 def obj_ifdefs(case, ifs):
@@ -411,12 +480,13 @@ def obj_ifdefs(case, ifs):
 
 
 def enc_doc(case):
+    used = set()      # build order: the cached definitions first, then the exported objects in their order
     parts = ['doc', str(case['replace']), tok(case['path']), 'K', str(len(case['known']))]
-    parts += [enc_ifdef(d) for d in case['known']]
+    parts += [enc_ifdef(d, used) for d in case['known']]
     parts += ['X', str(len(case['objs']))]
     for p, ifs in case['objs']:
         full = obj_ifdefs(case, ifs)
-        parts += [tok(p), str(len(full))] + [enc_ifdef(d) for d in full]
+        parts += [tok(p), str(len(full))] + [enc_ifdef(d, used) for d in full]
     parts += ['Q', str(len(case['queries']))]
     for f, m, n in case['queries']:
         parts += ['-' if f is None else tok(f), tok(m), str(n)]
@@ -483,28 +553,39 @@ def exc_kind(e):
     return 'exc:' + type(e).__name__
 
 
-def member_of(I, op):
+def member_of(I, op, registry=None):
+    """the member object of an add op; an op marked {'shared': k} uses ONE object per key within a case"""
+    mark = share_mark(op)
+    if mark is not None and registry is not None and mark['shared'] in registry:
+        return registry[mark['shared']]
     if op[0] == 'm':
-        return I.Method(op[1], op[2], op[3])
-    if op[0] == 's':
-        return I.Signal(op[1], op[2])
-    return I.Property(op[1], op[2], bool(op[3]), bool(op[4]), {'t': True, 'f': False, 'i': 'invalidates'}[op[5]])
+        o = I.Method(op[1], op[2], op[3])
+        if mark is not None and mark.get('preset'):
+            o.nargs, o.nret = op[4], op[5]      # created with its counts set by hand
+    elif op[0] == 's':
+        o = I.Signal(op[1], op[2])
+        if mark is not None and mark.get('preset'):
+            o.nargs = op[3]
+    else:
+        o = I.Property(op[1], op[2], bool(op[3]), bool(op[4]), {'t': True, 'f': False, 'i': 'invalidates'}[op[5]])
+    if mark is not None and registry is not None:
+        registry[mark['shared']] = o
+    return o
 
 
-def build_iface(I, d):
+def build_iface(I, d, registry=None):
     if d.get('ctor') and all(op[0] in ('m', 's', 'p') for op in d['ops']):
         # the members handed to the constructor: DBusInterface(name, *members)
-        return I.DBusInterface(d['name'], *[member_of(I, op) for op in d['ops']], noRegister=True)
+        return I.DBusInterface(d['name'], *[member_of(I, op, registry) for op in d['ops']], noRegister=True)
     i = I.DBusInterface(d['name'], noRegister=True)
     for op in d['ops']:
         k = op[0]
         if k == 'm':
-            i.addMethod(I.Method(op[1], op[2], op[3]))
+            i.addMethod(member_of(I, op, registry))
         elif k == 's':
-            i.addSignal(I.Signal(op[1], op[2]))
+            i.addSignal(member_of(I, op, registry))
         elif k == 'p':
-            i.addProperty(I.Property(op[1], op[2], bool(op[3]), bool(op[4]),
-                                     {'t': True, 'f': False, 'i': 'invalidates'}[op[5]]))
+            i.addProperty(member_of(I, op, registry))
         elif k == 'dm':
             i.delMethod(op[1])
         elif k == 'ds':
@@ -646,11 +727,12 @@ def observe_doc(case):
     def body():
         obs = {}
         try:
-            known_objs = [None if d.get('same_object') else build_iface(I, d) for d in case['known']]
+            registry = {}
+            known_objs = [None if d.get('same_object') else build_iface(I, d, registry) for d in case['known']]
             exported = {}
             declared = None
             for p, ifs in case['objs']:
-                built = [build_iface(I, d) for d in ifs]
+                built = [build_iface(I, d, registry) for d in ifs]
                 o = make_obj(case, p, built)
                 exported[p] = o
                 if p == case['path']:
@@ -659,7 +741,8 @@ def observe_doc(case):
                         if d.get('same_object'):
                             known_objs[j] = [b for b in built if b.name == d['name']][0]
             if any(k is None for k in known_objs):
-                known_objs = [k if k is not None else build_iface(I, d) for k, d in zip(known_objs, case['known'])]
+                known_objs = [k if k is not None else build_iface(I, d, registry)
+                              for k, d in zip(known_objs, case['known'])]
         except Exception as e:      # noqa - canonicalised
             obs['line'] = 'err ' + exc_kind(e)
             return obs
@@ -1101,6 +1184,17 @@ def doc_stats(ctx, case):
             ctx.stat('another exported object carries interfaces')
     if case.get('dup'):
         ctx.stat('same interface name twice on the object: %s' % case['dup'])
+    if case.get('shares'):
+        ctx.stat('member objects shared between DBusInterface instances')
+        for p, ifs in case['objs']:
+            if p == case['path']:
+                for d in ifs:
+                    seen_x = False
+                    for op in d['ops']:
+                        if op[0] == 'x':
+                            seen_x = True
+                        elif share_mark(op) is not None and seen_x:
+                            ctx.stat('shared %s object added after the XML was read' % {'m': 'Method', 's': 'Signal', 'p': 'Property'}[op[0]])
     if case.get('prelude'):
         ctx.stat('failed-parse prelude naming known interfaces: ' + case['prelude']['kind'])
     if case['path'] != '/' and case['path'].endswith('/'):
